@@ -37,7 +37,7 @@ class TopShape:
 def is_shared_view(v):
     if isinstance(v, SArr):
         return True
-    if isinstance(v, tuple) and v and v[0] in ("sview", "smap"):
+    if isinstance(v, tuple) and v and isinstance(v[0], str) and v[0] in ("sview", "smap"):
         return True
     if isinstance(v, LArr) and v.base is not None:
         return True
@@ -113,7 +113,7 @@ class FrameMixin:
                 return
             idx = list(v.fixed) + [fresh_int("any") for _ in v.view_shape()]
             st.log.append(("R", v.cell, tuple(idx), list(st.pc)))
-        elif isinstance(v, tuple) and v and v[0] in ("sview", "smap"):
+        elif isinstance(v, tuple) and v and isinstance(v[0], str) and v[0] in ("sview", "smap"):
             b = v
             while b[0] == "smap":
                 b = b[1]
@@ -132,7 +132,7 @@ class FrameMixin:
     def view_cell(self, v):
         if isinstance(v, SArr):
             return v.cell
-        if isinstance(v, tuple) and v and v[0] in ("sview", "smap"):
+        if isinstance(v, tuple) and v and isinstance(v[0], str) and v[0] in ("sview", "smap"):
             b = v
             while b[0] == "smap":
                 b = b[1]
